@@ -351,8 +351,20 @@ pub fn execute(sc: &Scenario) -> Outcome {
     stats.seen("rule_shapes", shape);
     let mut vs: Vec<Violation> = vec![];
     let mut attributions = 0;
+    let t_start = std::time::Instant::now();
+    let mut cut_short = false;
     for sw in &sc.switch_sets {
+        if cut_short {
+            break;
+        }
         for h in &sc.hash_seeds {
+            if t_start.elapsed().as_secs() >= 6 {
+                if !cut_short {
+                    stats.inc("heavy_scenarios_cut_short");
+                }
+                cut_short = true;
+                break;
+            }
             stats.inc("optimise_calls");
             let opt = match optimise(&rule, *sw, *h) {
                 Ok(o) => o,
